@@ -1737,7 +1737,14 @@ func (u *Unit) floatToInt(s *State, in ssa.Instruction, t *Term, tb *types.Basic
 		u.convNote(s, in, inRange)
 	case FloatAbstract:
 		w.needAbstractOps()
-		s.assume(Eq(r, App("f2i", "Int", t)))
+		// one conversion function per target type: the implementation-defined out-of-range results of
+		// int64(t) and uint32(t) are unrelated, and each is assumed to lie in its own type's range
+		fname := fmt.Sprintf("f2i_%d", bits)
+		if !signed {
+			fname = fmt.Sprintf("f2u_%d", bits)
+		}
+		w.Declare(fname, fmt.Sprintf("(declare-fun %s (Float) Int)", fname))
+		s.assume(Eq(r, App(fname, "Int", t)))
 	default:
 		w.unsupported("float->int conversion in floats bits mode")
 	}
